@@ -23,7 +23,9 @@ def run {α} (args : List String) (p : P α) (k : α → String) : String :=
 
 def isoQuery (E : BlockCipher) (reg : Registry) (op : String) (args : List String) : String :=
   match op with
-  | "cflistdec" => run args hex fun b => match CFList.dec b with
+  | "cflistdec" => run args hex fun b =>
+      if Checked.cfListDec b != CFList.dec b || Checked.joinAcceptDec b != JoinAccept.dec {} b then "MODEL-INCONSISTENT checked-cflist" else
+      match CFList.dec b with
       | .ok l => "ok " ++ fmtCFList (some l) | .err => "ERR" | .panic => "PANIC"
   | "cmddec" => run args (do let u ← boolean; let b ← hex; pure (u, b)) fun (u, b) =>
       match MacCmd.dec reg u b with
